@@ -766,8 +766,8 @@ func genRatingArg(r *rng) float64 {
 func genHot(r *rng, p *Plan) (nTasks, nParse int) {
 	p.Policy = "hot"
 	ver := pickVer(r, 0.3)
-	nTasks = 3 + r.intn(6)                    // 3..8
-	nVals := []int{2, 3, 3, 8, 48}[r.intn(5)] // many values: slot collisions in hashed caches (birthday)
+	nTasks = 3 + r.intn(6)                         // 3..8
+	nVals := []int{2, 3, 3, 8, 48, 160}[r.intn(6)] // many values: slot collisions in hashed caches (birthday)
 	var vals []string
 	for i := 0; i < nVals; i++ {
 		vals = append(vals, genValid(r, ver))
